@@ -305,7 +305,7 @@ def jobs(tier):
                 assumptions=['the lattice data is the one augment_classes computes from complete base lists: transitive_bases = all proper ancestors, direct bases not redundant, '
                              'direct_derived in registration order, covariant set = the class and its descendants (augment_classes itself is not under contract - C08)',
                              'each (method, parameter) pair has its own slots cell'],
-                extracted=[exa, ext, exl, exm, exs], props=['C04', 'C06', 'C01'], timeout=600, replay=replay)
+                extracted=[exa, ext, exl, exm, exs], props=['C04', 'C06', 'C01', 'C08'], timeout=600, replay=replay)
         j.nc, j.npm = nc, npm
         out.append(j)
     return out
